@@ -128,9 +128,14 @@ func h02a(edits int, world int) {
 		}
 		K := vxKnownWords(mt.Name)
 		var R []string
-		for i := mt.StartTokenIndex; i <= mt.EndTokenIndex; i++ {
-			R = append(R, c.dict.getWord(d.Tokens[i].ID))
+		for i := mt.StartTokenIndex; i <= mt.EndTokenIndex && i < len(all); i++ {
+			w := all[i] // the input's words are known by construction
+			if w == "" {
+				w = "zzz"
+			}
+			R = append(R, w)
 		}
+		vxAssert("span-inside-input", mt.EndTokenIndex < len(all))
 		L := vxLevenshtein(R, K)
 		bound := 1.0 - float64(L)/float64(len(K))
 		vxAssert("confidence-not-overstated", mt.Confidence <= bound)
